@@ -716,6 +716,11 @@ pub fn k10(dir: &str, thorough: bool, seed: u64) {
         s("a -?? b\nb -?? a\n$a: f(b) & !f_1\n$b: a\n"),
         s("a -?? c\nb -?? c\nc -?? a\n$c: g(a, b) | g_10\n$a: c\n"),
         s("a -?? b\nb -?? a\n$a: h(b) ^ h_0\n$b: h(a) & k\n"),
+        // variables WITHOUT regulators but with an update function that mentions parameters (D16)
+        s("$a: k\na -> b\n$b: a & k\n"),
+        s("$a: f(true)\na -> b\n$b: f(a)\n"),
+        s("$a: g(false) | k\na -> b\nb -> b\n$b: g(a) & !g(b)\n"),
+        s("$a: true\na -> b\n$b: a\n"),
         // VARIABLES named like generated constants (D13): f(0) would be `f_0`, the implicit function of b at 1 `b_1`,
         // the constant of the zero-arity k `k_`; twice in a row (`f_0` and `f_0_` both taken)
         s("a -> x\n$x: f(a)\nx -> f_0\n$f_0: x\nf_0 -> a\n$a: f_0\n"),
